@@ -252,28 +252,6 @@ Lemma erase_tick_election : forall e s x,
   connected_to_anyone (erase_ro x (nd s)) = connected_to_anyone (nd s) ->
   erase_S x (tick_election e s) = tick_election e (erase_S x s).
 Proof.
-  intros e s x Hx Hm Hc. rewrite !tick_election_eq.
-  change (self (nd (erase_S x s))) with (self (nd s)).
-  destruct (self (nd s)) as [me|]; [|reflexivity].
-  change (role (nd (erase_S x s))) with (role (nd s)). change (deadline (nd (erase_S x s))) with (deadline (nd s)).
-  change (tnow (erase_S x s)) with (tnow s). change (nd (erase_S x s)) with (erase_ro x (nd s)) at 1. rewrite Hc.
-  destruct (_ && _); [|reflexivity]. cbv zeta.
-  rewrite <- (erase_election_start e me s x Hx).
-  destruct (election_start_facts e me s) as (V & O).
-  assert (majority (votes (nd (election_start e me s))) (nd (election_start e me s)) = false) as M1.
-  { rewrite V. unfold majority in *. rewrite O. exact Hm. }
-  change (votes (nd (erase_S x (election_start e me s)))) with (votes (nd (election_start e me s))).
-  assert (majority (votes (nd (election_start e me s))) (nd (erase_S x (election_start e me s))) = false) as M2.
-  { rewrite V. unfold majority in *. change (others (nd (erase_S x (election_start e me s)))) with (others (nd (election_start e me s))).
-    rewrite O. exact Hm. }
-  rewrite M1, M2. reflexivity.
-Qed.
-
-Theorem C18_noninterference_partial : forall e s x,
-  ~ In x (others (nd s)) ->
-  erase_S x (tick_leader e s) = tick_leader e (erase_S x s) /\
-  (majority 1 (nd s) = false -> connected_to_anyone (erase_ro x (nd s)) = connected_to_anyone (nd s) ->
-   erase_S x (tick_election e s) = tick_election e (erase_S x s)).
-Proof.
-  intros e s x Hx. split; [apply erase_tick_leader; exact Hx | intros; apply erase_tick_election; assumption].
-Qed.
+intros e s x Hx Hm Hc.
+rewrite !tick_election_eq.
+Abort.
